@@ -6,6 +6,7 @@
 // props leaf_generate_layout: C16       (same token sequence in 7 layouts: same emitted text but for the hash line, same error with positions carried along)
 // props leaf_hash_readback: C15         (get_grammar_hash against a direct reading of the statement; header of every emitted text reads back sha256(source))
 // props leaf_emitted_compiles: C05      (rustc --emit=metadata on the emitted module, payload types without any derive)
+// props leaf_validation_truthful: C10   (Ok only for files that an independent reading of the statement finds well-formed; a validation error names a violation really present at its positions)
 // props leaf_emitted_structure: C06     (type section and parse signature of the emitted text, parsed back, against the declarations: names, order, Box, `_` omitted, pub)
 // props leaf_emitted_attributes: C12    (attribute lines before each emitted type, byte for byte and in order; each attribute text occurs exactly once in the emitted text)
 // props leaf_emitted_payload_types: C13 (payload type tokens in the terminal enum and in every field of that terminal, against the declaration)
@@ -14,6 +15,7 @@
 // covers leaf_generate_layout: fn generate
 // covers leaf_hash_readback: fn get_grammar_hash
 // covers leaf_emitted_compiles: fn generate
+// covers leaf_validation_truthful: fn generate
 // covers leaf_emitted_structure: fn generate
 // covers leaf_emitted_attributes: fn generate
 // covers leaf_emitted_payload_types: fn generate
@@ -23,6 +25,8 @@
 //        quick tier, 1 in 7 in the thorough tier) + the example files of the repository. Layouts: 7. get_grammar_hash: every text of <= 4 lines
 //        (<= 5 thorough) over a 10-line alphabet, LF and CRLF, with and without final terminator. Compile check: 5 grammar shapes x 34 namings
 //        (one internal name at a time on every user-chosen position, then all at once) + the valid grammars of the family.
+//        Validation: the family + every single renaming `identifier j := identifier i` and every first-letter case flip in 7 base files (about 2 000 files with
+//        0..4 simultaneous violations).
 //        Emitted types: the accepted files of the family + 9 payload type expressions (unit, paths, generics nested <= 3) on 3 use sites + 8 attribute
 //        texts (non-ASCII, the three bracket kinds nested, 300 deep, quotes) on struct / enum / terminal declarations, 0..3 per declaration.
 #[cfg(test)]
@@ -902,4 +906,244 @@ mod __vx_leafcheck {
     fn leaf_emitted_attributes() { emitted_check("attributes"); }
     #[test]
     fn leaf_emitted_payload_types() { emitted_check("payload types"); }
+    // ------------------------------------------------------------------ C10 ------------------------------------------------------------------
+    #[derive(Clone, Debug)]
+    struct SymRef { name: String, terminal: bool, at: usize }          // `at`: byte position the generator reports for this occurrence
+    #[derive(Clone, Debug)]
+    struct FieldM { name: Option<(String, usize)>, sym: SymRef }       // name: Some for `x: ...` in a named fieldset
+    #[derive(Clone, Debug)]
+    struct VariantM { name: (String, usize), fields: Vec<FieldM> }
+    #[derive(Clone, Debug)]
+    struct NontermM { name: (String, usize), is_enum: bool, fields: Vec<FieldM>, variants: Vec<VariantM> }
+    #[derive(Clone, Debug)]
+    struct TermEnumM { name: (String, usize), variants: Vec<(String, usize)> }
+    #[derive(Clone, Debug, Default)]
+    struct FileM { starts: Vec<(String, usize)>, nonterminals: Vec<NontermM>, terminal_enums: Vec<TermEnumM> }
+
+    fn read_file(toks: &[String], pos: &[usize]) -> Option<FileM> {
+        let mut f = FileM::default();
+        let sym = |k: usize| -> Option<SymRef> {
+            let t = toks.get(k)?;
+            Some(match t.strip_prefix('$') { Some(n) => SymRef { name: n.to_string(), terminal: true, at: pos[k] + 1 }, None => SymRef { name: t.clone(), terminal: false, at: pos[k] } })
+        };
+        // fieldset starting at k (or none): returns fields and the index after it
+        let fieldset = |k: usize| -> Option<(Vec<FieldM>, usize)> {
+            match toks.get(k).map(|s| s.as_str()) {
+                Some("{") => {
+                    let mut fs = vec![];
+                    let mut j = k + 1;
+                    while toks.get(j)? != "}" {
+                        if toks.get(j + 1)? != ":" { return None; }
+                        let name = if toks[j] == "_" { None } else { Some((toks[j].clone(), pos[j])) };
+                        fs.push(FieldM { name, sym: sym(j + 2)? });
+                        j += 3;
+                    }
+                    Some((fs, j + 1))
+                }
+                Some("(") => {
+                    let mut fs = vec![];
+                    let mut j = k + 1;
+                    while toks.get(j)? != ")" {
+                        if toks[j] == "_" { fs.push(FieldM { name: None, sym: sym(j + 2)? }); j += 3; } else { fs.push(FieldM { name: None, sym: sym(j)? }); j += 1; }
+                    }
+                    Some((fs, j + 1))
+                }
+                _ => Some((vec![], k)),
+            }
+        };
+        let mut i = 0;
+        while i < toks.len() {
+            let t = toks[i].as_str();
+            if t.starts_with("#[") { i += 1; continue; }
+            match t {
+                "start" => { f.starts.push((toks.get(i + 1)?.clone(), pos[i + 1])); i += 2; }
+                "struct" => {
+                    let (fields, j) = fieldset(i + 2)?;
+                    f.nonterminals.push(NontermM { name: (toks.get(i + 1)?.clone(), pos[i + 1]), is_enum: false, fields, variants: vec![] });
+                    i = j;
+                }
+                "enum" => {
+                    if toks.get(i + 2)? != "{" { return None; }
+                    let mut variants = vec![];
+                    let mut j = i + 3;
+                    while toks.get(j)? != "}" {
+                        let (fields, e) = fieldset(j + 1)?;
+                        variants.push(VariantM { name: (toks[j].clone(), pos[j]), fields });
+                        j = e;
+                    }
+                    f.nonterminals.push(NontermM { name: (toks.get(i + 1)?.clone(), pos[i + 1]), is_enum: true, fields: vec![], variants });
+                    i = j + 1;
+                }
+                "terminal" => {
+                    if toks.get(i + 2)? != "{" { return None; }
+                    let mut variants = vec![];
+                    let mut j = i + 3;
+                    let mut depth = 0i32;
+                    while !(toks.get(j)? == "}" && depth == 0) {
+                        match toks[j].as_str() { "<" | "(" => depth += 1, ">" | ")" => depth -= 1, _ => {} }
+                        if let Some(n) = toks[j].strip_prefix('$') { variants.push((n.to_string(), pos[j] + 1)); }
+                        j += 1;
+                    }
+                    f.terminal_enums.push(TermEnumM { name: (toks.get(i + 1)?.clone(), pos[i + 1]), variants });
+                    i = j + 1;
+                }
+                _ => return None,
+            }
+        }
+        Some(f)
+    }
+    fn first_letter(s: &str) -> Option<char> { s.chars().find(|c| c.is_ascii_alphabetic()) }
+    fn upper_ok(s: &str) -> bool { first_letter(s).map_or(true, |c| c.is_ascii_uppercase()) }
+    fn lower_ok(s: &str) -> bool { first_letter(s).map_or(true, |c| c.is_ascii_lowercase()) }
+    fn sym_debug(r: &SymRef) -> String { if r.terminal { format!("Terminal(DollarlessTerminalName({:?}))", r.name) } else { format!("Nonterminal({:?})", r.name) } }
+    fn all_fieldsets(f: &FileM) -> Vec<&Vec<FieldM>> {
+        let mut out = vec![];
+        for n in &f.nonterminals { if n.is_enum { for v in &n.variants { out.push(&v.fields); } } else { out.push(&n.fields); } }
+        out
+    }
+    /// every top-level definition: (name, position)
+    fn definitions(f: &FileM) -> Vec<(String, usize)> {
+        let mut d: Vec<(String, usize)> = f.nonterminals.iter().map(|n| n.name.clone()).collect();
+        for t in &f.terminal_enums { d.extend(t.variants.iter().cloned()); d.push(t.name.clone()); }
+        d
+    }
+    /// the statement of C10, first half
+    fn well_formed(f: &FileM) -> bool {
+        let nt = |n: &str| f.nonterminals.iter().any(|x| x.name.0 == n);
+        if f.starts.len() != 1 || f.terminal_enums.len() != 1 || !nt(&f.starts[0].0) { return false; }
+        let te = &f.terminal_enums[0];
+        let term = |n: &str| te.variants.iter().any(|x| x.0 == n);
+        let d = definitions(f);
+        for (i, a) in d.iter().enumerate() { for b in &d[i + 1..] { if a.0 == b.0 { return false; } } }
+        if !upper_ok(&te.name.0) || te.variants.iter().any(|v| !upper_ok(&v.0)) { return false; }
+        for n in &f.nonterminals {
+            if !upper_ok(&n.name.0) { return false; }
+            for (i, v) in n.variants.iter().enumerate() {
+                if !upper_ok(&v.name.0) { return false; }
+                for w in &n.variants[i + 1..] {
+                    if v.name.0 == w.name.0 { return false; }
+                    let (a, b): (Vec<String>, Vec<String>) = (v.fields.iter().map(|x| sym_debug(&x.sym)).collect(), w.fields.iter().map(|x| sym_debug(&x.sym)).collect());
+                    if a == b { return false; }
+                }
+            }
+        }
+        for fs in all_fieldsets(f) { for x in fs {
+            if let Some((n, _)) = &x.name { if !lower_ok(n) { return false; } }
+            if x.sym.terminal { if !term(&x.sym.name) { return false; } } else if !nt(&x.sym.name) { return false; }
+        } }
+        true
+    }
+    /// the statement of C10, second half: `None` = not a validation error
+    fn truthful(f: &FileM, e: &KikiErr) -> Option<bool> {
+        let nt = |n: &str| f.nonterminals.iter().any(|x| x.name.0 == n);
+        Some(match e {
+            KikiErr::NoStartSymbol => f.starts.is_empty(),
+            KikiErr::MultipleStartSymbols(ps) => f.starts.len() >= 2 && ps.len() >= 2 && ps.iter().all(|p| f.starts.iter().any(|s| s.1 == p.0)) && ps.iter().enumerate().all(|(i, p)| ps[..i].iter().all(|q| q != p)),
+            KikiErr::NoTerminalEnum => f.terminal_enums.is_empty(),
+            KikiErr::MultipleTerminalEnums(ps) => f.terminal_enums.len() >= 2 && ps.len() >= 2 && ps.iter().all(|p| f.terminal_enums.iter().any(|s| s.name.1 == p.0)) && ps.iter().enumerate().all(|(i, p)| ps[..i].iter().all(|q| q != p)),
+            KikiErr::SymbolOrTerminalEnumNameFirstLetterNotUppercase(p) => {
+                let mut names: Vec<(String, usize)> = definitions(f);
+                for n in &f.nonterminals { names.extend(n.variants.iter().map(|v| v.name.clone())); }
+                names.iter().any(|(n, q)| *q == p.0 && !upper_ok(n))
+            }
+            KikiErr::FieldFirstLetterNotLowercase(p) => all_fieldsets(f).iter().any(|fs| fs.iter().any(|x| x.name.as_ref().map_or(false, |(n, q)| *q == p.0 && !lower_ok(n)))),
+            KikiErr::NameClash(n, p, q) => { let d = definitions(f); p != q && d.iter().any(|x| x.0 == *n && x.1 == p.0) && d.iter().any(|x| x.0 == *n && x.1 == q.0) }
+            KikiErr::NonterminalEnumVariantNameClash(n, p, q) => p != q && f.nonterminals.iter().any(|e| e.variants.iter().any(|v| v.name.0 == *n && v.name.1 == p.0) && e.variants.iter().any(|v| v.name.0 == *n && v.name.1 == q.0)),
+            KikiErr::NonterminalEnumVariantSymbolSequenceClash(syms, p, q) => {
+                let want: Vec<String> = syms.iter().map(|s| format!("{:?}", s)).collect();
+                let seq = |v: &VariantM| -> Vec<String> { v.fields.iter().map(|x| sym_debug(&x.sym)).collect() };
+                p != q && f.nonterminals.iter().any(|e| e.variants.iter().any(|v| v.name.1 == p.0 && seq(v) == want) && e.variants.iter().any(|v| v.name.1 == q.0 && seq(v) == want))
+            }
+            KikiErr::UndefinedNonterminal(n, p) => !nt(n) && (f.starts.iter().any(|s| s.0 == *n && s.1 == p.0)
+                || all_fieldsets(f).iter().any(|fs| fs.iter().any(|x| !x.sym.terminal && x.sym.name == *n && x.sym.at == p.0))),
+            KikiErr::UndefinedTerminal(n, p) => !f.terminal_enums.iter().any(|t| t.variants.iter().any(|v| v.0 == n.raw()))
+                && all_fieldsets(f).iter().any(|fs| fs.iter().any(|x| x.sym.terminal && x.sym.name == n.raw() && x.sym.at == p.0)),
+            _ => return None,
+        })
+    }
+
+    const BASES: &[&str] = &[
+        "start S enum S { A ( T $X ) B { x : $Y y : T } C } struct T ( $X _ : $Y ) terminal Tok { $X : ( ) $Y : u8 }",
+        "start E enum E { Add { l : E _ : $Plus r : F } One ( F ) } enum F { Num ( $N ) Par ( $L E $R ) } terminal K { $Plus : ( ) $N : ( ) $L : ( ) $R : ( ) }",
+        "start S struct S { a : A b : B } struct A ( $X ) struct B ( $Y ) terminal T { $X : ( ) $Y : ( ) }",
+        "start S start T struct S struct T ( S ) terminal K { $X : ( ) } terminal L { $Y : ( ) }",
+        "start S enum S { A B ( $X ) } enum T { A B ( $X ) }",
+        "struct S ( $X ) enum E { V ( S ) W ( E ) } terminal T { $X : ( ) }",
+        "start S enum S { A ( $X $X ) B ( $X ) C ( _ : $X ) D { p : $X q : $X } } terminal T { $X : ( ) }",
+    ];
+    fn validation_family() -> Vec<Vec<String>> {
+        let mut fam: Vec<Vec<String>> = VALID.iter().chain(CONFLICTING).chain(INVALID).map(|c| tokens(c)).collect();
+        fam.extend(enumerated(1, 1).iter().map(|c| tokens(c)));
+        let is_name = |t: &str| !matches!(t, "start" | "struct" | "enum" | "terminal" | "_" | "u8") && t.chars().next().map_or(false, |c| c.is_ascii_alphabetic() || c == '$');
+        for b in BASES {
+            let t = tokens(b);
+            fam.push(t.clone());
+            let names: Vec<usize> = (0..t.len()).filter(|k| is_name(&t[*k])).collect();
+            for &j in &names {
+                // case flip of the first letter
+                let mut u = t.clone();
+                let (d, core) = match u[j].strip_prefix('$') { Some(c) => ("$", c.to_string()), None => ("", u[j].clone()) };
+                let mut cs: Vec<char> = core.chars().collect();
+                cs[0] = if cs[0].is_ascii_uppercase() { cs[0].to_ascii_lowercase() } else { cs[0].to_ascii_uppercase() };
+                u[j] = format!("{}{}", d, cs.iter().collect::<String>());
+                fam.push(u);
+                for &i in &names {
+                    if i == j || t[i] == t[j] || t[i].starts_with('$') != t[j].starts_with('$') { continue; }
+                    let mut u = t.clone();
+                    u[j] = t[i].clone();
+                    fam.push(u);
+                }
+                // this occurrence alone becomes a name that nothing defines
+                let mut u = t.clone();
+                u[j] = format!("{}{}", d, if cs[0].is_ascii_uppercase() { "zz9" } else { "Zz9" });
+                fam.push(u);
+                // every occurrence of the name renamed at once: flipped case, flipped case behind underscores, same case behind underscores
+                if names.iter().position(|&k| t[k] == t[j]) == names.iter().position(|&k| k == j) {
+                    let flipped: String = cs.iter().collect();
+                    for new in [flipped.clone(), format!("_{}", flipped), format!("__9{}", flipped), format!("_{}", core)] {
+                        let u: Vec<String> = t.iter().map(|x| if *x == t[j] { format!("{}{}", d, new) } else if x.strip_prefix('$') == Some(&core) && d.is_empty() { x.clone() } else { x.clone() }).collect();
+                        fam.push(u);
+                    }
+                }
+            }
+        }
+        fam
+    }
+
+    #[test]
+    fn leaf_validation_truthful() {
+        let mut n = 0usize;
+        for toks in validation_family() {
+            let (text, pos) = render(&toks, if n % 2 == 0 { 0 } else { 3 });
+            let Some(file) = read_file(&toks, &pos) else { continue };
+            let wf = well_formed(&file);
+            match run(&text) {
+                // on a well-formed file a panic is the business of leaf_generate_total; on an ill-formed one it means the violation went unreported
+                None => if !wf {
+                    println!("LEAFCHECK-FAIL leaf=generate(validation) input={} got=panic in a later stage want=a validation error (the file breaks a static rule)", brief(&text));
+                    panic!("ill-formed file passed validation");
+                },
+                Some(Ok(_)) => if !wf {
+                    println!("LEAFCHECK-FAIL leaf=generate(validation) input={} got=Ok want=a validation error (the file breaks a static rule)", brief(&text));
+                    panic!("ill-formed file accepted");
+                },
+                Some(Err(e)) => match truthful(&file, &e) {
+                    Some(true) => if wf {
+                        println!("LEAFCHECK-FAIL leaf=generate(validation) input={} got=Err({:?}) want=no validation error (the file obeys every static rule)", brief(&text), e);
+                        panic!("well-formed file rejected");
+                    },
+                    Some(false) => {
+                        println!("LEAFCHECK-FAIL leaf=generate(validation) input={} got=Err({:?}) want=an error that describes a violation present at the positions it carries", brief(&text), e);
+                        panic!("untruthful validation error");
+                    }
+                    None => if !wf && !matches!(e, KikiErr::Lex(..) | KikiErr::Parse(..)) {
+                        println!("LEAFCHECK-FAIL leaf=generate(validation) input={} got=a later stage ran (table conflict) want=a validation error (the file breaks a static rule)", brief(&text));
+                        panic!("ill-formed file passed validation");
+                    },
+                },
+            }
+            n += 1;
+        }
+        println!("LEAFCHECK leaf=generate(validation) cases={}", n);
+    }
 }
